@@ -74,8 +74,10 @@ def execute(ctx, case):
             pass  # the root search gives up when threshold differences overflow (scores near the float range limits); a warm-up, not a check
         for m in METRICS:
             getattr(s, "threshold_at_" + m)(rs[:3])
+    if case["_seed"] % 5 == 0:  # the same configuration, re-assigned as the plain strings the constructor accepts
+        s.score_class, s.equal_class = str(sc), str(ec)
     sw = s.swap()
-    C((sw.score_class.value, sw.equal_class.value, sw.nb_easy_pos, sw.nb_easy_neg) == (FLIP[sc], FLIP[ec], en, ep) and np.array_equal(sw.pos, s.neg) and np.array_equal(sw.neg, s.pos),
+    C((*monitors.cfg_of(sw), sw.nb_easy_pos, sw.nb_easy_neg) == (FLIP[sc], FLIP[ec], en, ep) and np.array_equal(sw.pos, s.neg) and np.array_equal(sw.neg, s.pos),
       "swap() does not exchange classes, easy counts and both flags", "sym-swap-object")
     for m in METRICS:
         C(np.array_equal(getattr(s, m)(ths), getattr(sw, MIRROR[m])(ths), equal_nan=True), "swap(): a rate of the original differs from its mirror rate on the swapped object", "sym-swap-rate", metric=m, thresholds=ths)
